@@ -3532,10 +3532,30 @@ class OpAlignPartitions(MaybeAlignPartitions):
         dfs = self.args
         if (
             len(dfs) == 1
-            or all(dfs[0].divisions == df.divisions for df in dfs)
+            or all(
+                dfs[0].divisions == df.divisions and df.known_divisions for df in dfs
+            )
             or len(self.divisions) == 2
         ):
             return self._op(self.frame, self.op, self.other, *self.operands[3:])
+        elif self.divisions[0] is None:
+            # We have to shuffle, equal partition counts don't mean equal rows
+            npartitions = max(df.npartitions for df in dfs)
+            dtypes = {df._meta.index.dtype for df in dfs}
+            if not _are_dtypes_shuffle_compatible(dtypes):
+                raise TypeError(
+                    "DataFrames are not aligned. We need to shuffle to align partitions "
+                    "with each other. This is not possible because the indexes of the "
+                    f"DataFrames have differing dtypes={dtypes}. Please ensure that "
+                    "all Indexes have the same dtype or align manually for this to "
+                    "work."
+                )
+
+            from dask_expr._shuffle import RearrangeByColumn
+
+            frame = RearrangeByColumn(self.frame, None, npartitions, index_shuffle=True)
+            other = RearrangeByColumn(self.other, None, npartitions, index_shuffle=True)
+            return self._op(frame, self.op, other, *self.operands[3:])
 
         from dask_expr._repartition import RepartitionDivisions
 
